@@ -154,6 +154,18 @@ def pi_phases(rng, n):
     return ph
 
 
+def half_pi_phases(rng, n):
+    """phases that are integer multiples of pi/2 with at least one odd multiple (cos(phi) = 6e-17: a purely sigma-y drive), sometimes
+    mixed with one generic phase"""
+    mult = [rng.choice([1, -1, 3, 1, 0, 2, 5]) for _ in range(n)]
+    if not any(m % 2 for m in mult):
+        mult[rng.randrange(n)] = rng.choice([1, -1, 3])
+    ph = [m * math.pi / 2 for m in mult]
+    if rng.random() < 0.25 and n > 1:
+        ph[rng.randrange(n)] = rng.uniform(-3, 3)
+    return ph
+
+
 def enc_phases(tio, phis, table):
     out = []
     for p in phis:
@@ -241,7 +253,8 @@ def correspondence(rep: Report, rng, tier: str) -> None:
     for i in range(16 if quick else 100):
         n = rng.randint(1, 6)
         P = gen_params(rng, n, "zero")
-        P["phis"] = pi_phases(rng, n) if i % 2 else [rng.uniform(-3.2, 3.2) if rng.random() < 0.7 else 0.0 for _ in range(n)]
+        P["phis"] = (pi_phases(rng, n) if i % 4 == 1 else half_pi_phases(rng, n)) if i % 2 else \
+            [rng.uniform(-3.2, 3.2) if rng.random() < 0.7 else 0.0 for _ in range(n)]
         ph_t = torch.tensor(P["phis"], dtype=tio.C128)
         cosv, sinv, expv = torch.cos(ph_t), torch.sin(ph_t), torch.exp(1j * ph_t)
         # contract of the tape: exp(iφ) = cos φ + i sin φ, cos 0 = 1, sin 0 = 0
@@ -368,9 +381,11 @@ def oracle_case(rng, n, kind, nl=0):
     for i in range(n):
         for j in range(i + 1, n):
             P["U"][i][j] = P["U"][j][i] = rng.uniform(0, 30) * rng.choice([1.0, 1.0, 0.0, 0.01])
-    pm = rng.choice(["zero", "nonzero", "mixed", "pi-multiples", "pi-multiples"])
+    pm = rng.choice(["zero", "nonzero", "mixed", "pi-multiples", "pi-multiples", "half-pi", "half-pi"])
     if pm == "pi-multiples":
         P["phis"] = pi_phases(rng, n)
+    elif pm == "half-pi":
+        P["phis"] = half_pi_phases(rng, n)
     else:
         P["phis"] = [0.0 if pm == "zero" or (pm == "mixed" and rng.random() < 0.5) else rng.uniform(-math.pi, math.pi) for _ in range(n)]
     if rng.random() < 0.6:
